@@ -938,11 +938,24 @@ pub fn execute(case: &Case) -> Outcome {
         if !head_ok || !unit_fully_mapped(&l, l.addrs[h]) || !unit_fully_mapped(&l, l.addrs[t]) {
             continue;
         }
-        if manual.iter().any(|m| m.0 == h) {
-            continue;
-        }
+        // a second edge out of the same indirect jump (a jump table) goes to another tail and
+        // carries the complement of the first one's guard, so that the requester is not
+        // ambiguous; anything else from a head that already has an edge is not requested
+        let earlier: Vec<&(usize, usize, bool)> = manual.iter().filter(|m| m.0 == h).collect();
+        let second = match earlier.as_slice() {
+            [] => false,
+            [(_, t0, true)] if *t0 != t && guarded && matches!(l.slots[h], Slot::Term { .. }) => true,
+            _ => continue,
+        };
         manual.push((h, t, guarded));
-        let cond = if guarded { Some(il::expr_scalar("manual_guard", 1)) } else { None };
+        let cond = if second {
+            c.inc("fault.manual-edge-second-from-head");
+            Some(il::Expression::cmpeq(il::expr_scalar("manual_guard", 1), il::expr_const(0, 1)).unwrap())
+        } else if guarded {
+            Some(il::expr_scalar("manual_guard", 1))
+        } else {
+            None
+        };
         opts.add_manual_edge(ManualEdge::new(l.addrs[h], l.addrs[t], cond));
         c.inc("fault.manual-edge");
     }
@@ -1678,8 +1691,12 @@ pub fn generate(run_seed: u64, index: u64) -> Case {
                     let h = *rng.pick(&terms);
                     // one manual edge per head: two edges out of one block would be the
                     // requester's own ambiguity, not the translator's
-                    if case.manual_edges.iter().all(|e| e.0 != h) {
+                    let from_h: Vec<(usize, usize, bool)> = case.manual_edges.iter().filter(|e| e.0 == h).cloned().collect();
+                    if from_h.is_empty() {
                         case.manual_edges.push((h, rng.usize_below(n), rng.chance(1, 2)));
+                    } else if from_h.len() == 1 && from_h[0].2 {
+                        // a jump table: a second guarded edge to another tail (see execute)
+                        case.manual_edges.push((h, rng.usize_below(n), true));
                     }
                 }
             }
